@@ -751,11 +751,15 @@ func runClient(rep *vh.Report, env vh.Env, only int) {
 			kind := []string{"check", "list"}[i%2]
 			list = append(list, sc{fmt.Sprintf("continuation-while-open.trip-by-%s", kind), func(c *clientRun) { c.scenarioContinuation(kind) }})
 		}
-		for i := 0; i < 2; i++ {
+		// these scenarios run against the real clock (jittered back-off): several of each, so that a stalled
+		// machine making one of them uninformative does not leave the run short of its floors
+		for i := 0; i < 6; i++ {
 			kind := []string{"check", "list"}[i%2]
 			list = append(list, sc{fmt.Sprintf("half-open-cap.trip-by-%s", kind), func(c *clientRun) { c.scenarioHalfOpen(kind) }})
 		}
-		list = append(list, sc{"results", func(c *clientRun) { c.scenarioResults() }})
+		for i := 0; i < 3; i++ {
+			list = append(list, sc{"results", func(c *clientRun) { c.scenarioResults() }})
+		}
 		for i := 0; i < 3; i++ {
 			list = append(list, sc{"failed-page-trips", func(c *clientRun) { c.scenarioFailedPage() }})
 		}
